@@ -5,7 +5,11 @@ impl  = the real library: LocationLists / RangeLists constructed directly over B
         DW_AT_location / DW_AT_GNU_locviews / DW_AT_ranges / DW_AT_*_base ('file'): location_lists(),
         range_lists(), get_*_list_at_offset(_ex), LocationParser.parse_from_attribute, iter_location_lists,
         iter_range_lists, iter_CUs, iter_CU_range_lists_ex, translate_v5_entry;  LocationParser's three
-        predicates over every attribute name x form x version ('classify').
+        predicates over every attribute name x form x version ('classify');  'session' = a scripted sequence
+        of API calls on ONE freshly built DWARFInfo (nothing parsed yet unless the script warms it up): DIE
+        parsing (get_top_DIE / partially or fully consumed iter_DIEs), fetches through DIE attributes,
+        get_range_list_at_offset_ex, and every enumeration entry point consumed yield by yield with further
+        calls between two yields (Model/C07Session.v: stream cursors and DIE caches explicit).
 spec  = Spec/C07Lists.v, Spec/C07Sections.v: the list sections are produced by the Coq encoders and the
         expected entries by the Coq meaning functions;  model = Model/C07Lists.v over Gen/C07Tables.v."""
 import io
@@ -24,13 +28,18 @@ CONFIG = {'assumptions': [
     'an empty offset table is reported by iter_CUs as False (API convention, mirrored by the spec)',
     'LocationListsPair/RangeListsPair refuse enumeration by design (documented DWARFError): with both generations '
     'present the enumeration is observed on LocationLists/RangeLists built over each section',
+    'session: an enumeration is required to be exact under every interleaving of calls that do not read the '
+    'enumerated section between two yields (Model/C07Session.v op_in_domain); a consumer that fetches lists of '
+    '.debug_loclists between two yields of the v5 iter_location_lists, or of .debug_rnglists between two yields of '
+    'iter_CU_range_lists_ex, moves the stream the generator reads from: those sessions are compared with the model only',
     'classification: in domain exactly where the DWARF 2-5 attribute/form class tables give the combination a unique '
     'reading (Spec/C07Lists.v std_classify); DW_AT_data_member_location with data4/data8 in DWARF 3 is ambiguous']}
 LEVEL = {'text': 'Machine-checked: round trip of .debug_loc/.debug_ranges lists (base-selection entries, any expression '
                  'length) and of .debug_loclists/.debug_rnglists lists over every DW_LLE/DW_RLE kind and every valid '
                  'ULEB128 operand encoding, with entry offsets/lengths, placed anywhere in a section with any tail; '
                  'address-table and offset-table resolution; unit-block iteration with offset tables of any size; '
-                 'enumeration = lists referenced by the debugging entries, once, in offset order; attribute '
+                 'enumeration = lists referenced by the debugging entries, once, in offset order, from any reachable '
+                 'state of the shared section streams and DIE caches and under interleaved DIE parsing; attribute '
                  'classification swept over every name x form x version 2..5 against the DWARF class tables. The v5 '
                  'entry structs, enum values, unit headers and entry_translate tables are regenerated from the live '
                  'modules and proved equal to the standard tables; loops are pinned by correspondence.',
@@ -43,7 +52,11 @@ RULE = ('cases: list4/list5 = one list from the Coq encoder (address size 4/8 x 
         'whole DWARFInfo: v4 sections and/or v5 sections (1..4 unit blocks, DWARF32/64, offset tables with 0..n '
         'entries, gaps, location-view pairs, .debug_addr tables) and 1..4 units (versions 2-5) whose DIEs reference '
         'the lists by sec_offset/data4/data8/loclistx/rnglistx, observed through every public entry point; classify '
-        '= one (version, attribute name) against every form; malformed = truncations and unknown kinds (model vs '
+        '= one (version, attribute name) against every form; session = a whole file plus a script run on a fresh '
+        'DWARFInfo: optional warm-up (every DIE parsed), then 1..4 calls among DIE parsing of a unit (top DIE / a '
+        'prefix / all), fetch through a random DIE attribute, get_range_list_at_offset_ex, and the enumerations '
+        'iter_location_lists / iter_range_lists (both generations), LocationLists.iter_CUs, RangeLists.iter_CUs, '
+        'iter_CU_range_lists_ex, each with 0..2 such calls after each of the first 0..6 yields; malformed = truncations and unknown kinds (model vs '
         'implementation only). distinct = hash(kind, abstract); non-trivial = at least one list entry or one '
         'in-domain classification')
 
@@ -380,6 +393,60 @@ def gen_file(rng, size):
     return ['file', [sc['le'], sc['asz'], sc['loc4'], sc['rng4'], sc['tables'], sc['loc5'], sc['rng5'], sc['cus']]]
 
 
+def gen_script(rng, a):
+    """a script for one whole-file scenario: top-level ops
+         ['act', simple] | ['iter_loc', gen, sched] | ['iter_rng', gen, sched] | ['cus_loc', sched] | ['cus_rng', sched]
+         | ['cu_ex', unit block index, sched]
+       simple = ['parse', unit, n DIEs] | ['fetch', unit, die, attribute name] | ['get_ex', unit block, list]
+       sched = [[simple...] after yield 0, [simple...] after yield 1, ...]"""
+    le, asz, loc4, rng4, tables, loc5, rng5, cus = a
+    ncu = len(cus)
+    fetchables = [[k, d, at[1]] for k, cu in enumerate(cus) for d, attrs in enumerate(cu[3]) for at in attrs if at[0] == 'ref']
+    ex_lists = [[ui, li] for ui, u in enumerate(rng5 or []) for li in range(len(_list_items(u[5])))]
+    contiguous = [ui for ui, u in enumerate(rng5 or []) if all(it[0] == 'list' and not it[1] for it in u[5])]
+
+    def parse():
+        k = rng.randrange(ncu)
+        nd = len(cus[k][3])
+        return ['parse', k, rng.choice([1, nd + 1, rng.randint(1, nd + 1)])]
+
+    def simple(p_parse):
+        if rng.random() < p_parse or not (fetchables or ex_lists):
+            return parse()
+        if ex_lists and (not fetchables or rng.random() < 0.25):
+            return ['get_ex'] + rng.choice(ex_lists)
+        return ['fetch'] + rng.choice(fetchables)
+
+    def sched():
+        # mostly DIE parsing between the yields, sometimes fetches (which may read the enumerated section)
+        p = rng.choice([1.0, 1.0, 0.8, 0.5])
+        return [[simple(p) for _ in range(rng.choice([0, 1, 1, 2]))] for _ in range(rng.randint(0, 6))]
+    enums = []
+    if loc4 is not None:
+        enums.append(lambda: ['iter_loc', 4, sched()])
+    if rng4 is not None:
+        enums.append(lambda: ['iter_rng', 4, sched()])
+    if loc5 is not None:
+        enums += [lambda: ['iter_loc', 5, sched()]] * 3 + [lambda: ['cus_loc', sched()]]
+    if rng5 is not None:
+        enums += [lambda: ['iter_rng', 5, sched()], lambda: ['cus_rng', sched()]]
+        if contiguous:
+            enums += [lambda: ['cu_ex', rng.choice(contiguous), sched()]] * 3
+    ops = []
+    if rng.random() < 0.3:          # warmed-up: everything parsed before the first observation
+        ops += [['act', ['parse', k, len(cu[3]) + 1]] for k, cu in enumerate(cus)]
+    elif rng.random() < 0.3:        # partly warmed-up
+        ops += [['act', parse()] for _ in range(rng.randint(1, 2))]
+    n = rng.randint(1, 4)
+    first = rng.randrange(n)
+    for i in range(n):
+        if enums and (i == first or rng.random() < 0.5):
+            ops.append(rng.choice(enums)())
+        else:
+            ops.append(['act', simple(0.3)])
+    return ops
+
+
 def gen(ctx):
     rng = ctx.rng
     cases = []
@@ -421,6 +488,11 @@ def gen(ctx):
                                        rng.choice([b'', b'\x08', b'\x63\x00', b'\x04\x80', b'\x05\x01'])]))
                 cases.append(('bad5', ['loc', le, asz, gen_lle(rng, asz, 0, rng.randint(0, 3), ['offset_pair', 'base_address', 'default_location']),
                                        rng.choice([b'', b'\x09', b'\x63\x00', b'\x04\x80', b'\x05\x05\x01', b'\x06\x01'])]))
+    # ---- sessions: call orders on one fresh DWARFInfo (after everything else: the cases above keep their seeds)
+    for size, n in ((0, 60 * T), (1, 110 * T), (2, 50 * T)):
+        for _ in range(n):
+            a = gen_file(rng, size)[1]
+            cases.append(('session', [a, gen_script(rng, a)]))
     # ---- classification: every name x version, all forms in one case
     for v in (2, 3, 4, 5):
         cases.append(('classify', [v]))
@@ -477,6 +549,8 @@ def evaluate(ctx, cases):
             _eval_lists(ctx, kind, [a for _, a in by[kind]])
     if 'file' in by:
         _eval_files(ctx, [a for _, a in by['file']])
+    if 'session' in by:
+        _eval_sessions(ctx, [a for _, a in by['session']])
     if 'classify' in by:
         _eval_classify(ctx, [a for _, a in by['classify']])
 
@@ -706,6 +780,28 @@ def _nviews(f, tgt):
     return len(_list_items(its)[li][1])
 
 
+def _enum_expected_req(f, gen_, ranges):
+    """the spec request for what an enumeration of the generation's location / range section must yield: the items
+    whose first byte a debugging entry of a unit of that generation references"""
+    same = [ci for ci, cu in enumerate(f['cus']) if (cu['version'] >= 5) == (gen_ == 5)]
+    refs = set()
+    for ci in same:
+        for d in f['cus'][ci]['meta']:
+            has_views = any(t is not None and t[0] == 'views' for _, _, _, t in d)
+            for name, form, raw, tgt in d:
+                if ranges:
+                    if tgt is not None and name == 'DW_AT_ranges':
+                        refs.add(_expect_of(f, tgt[1:])[0])
+                    continue
+                if tgt is None or name == 'DW_AT_ranges':
+                    continue
+                if tgt[0] == 'views' or not (has_views and name == 'DW_AT_location'):
+                    refs.add(_expect_of(f, tgt[1:])[0])
+    key = {(4, False): 'loc4', (4, True): 'rng4', (5, False): 'loc5', (5, True): 'rng5'}[(gen_, ranges)]
+    flat = f[key] if gen_ == 4 else [e for u in f[key] for e in u['expect']]
+    return ['enum_expected', sorted(refs), flat]
+
+
 def _plan_observations(f, reqs):
     """model requests for one file; remembers the slots in f['plan'] as (label, slot, spec)"""
     plan = []
@@ -741,34 +837,16 @@ def _plan_observations(f, reqs):
                     reqs.append(['std_classify', ver, name, form])
     # enumerations
     for gen_, lkey, rkey in ((4, 'loc4', 'rng4'), (5, 'loc5', 'rng5')):
-        same = [ci for ci, cu in enumerate(f['cus']) if (cu['version'] >= 5) == (gen_ == 5)]
         if f[lkey] is not None:
-            refs = set()
-            for ci in same:
-                for d in f['cus'][ci]['meta']:
-                    has_views = any(t is not None and t[0] == 'views' for _, _, _, t in d)
-                    for name, form, raw, tgt in d:
-                        if tgt is None or name == 'DW_AT_ranges':
-                            continue
-                        if tgt[0] == 'views' or not (has_views and name == 'DW_AT_location'):
-                            refs.add(_expect_of(f, tgt[1:])[0])
-            flat = f[lkey] if gen_ == 4 else [e for u in f[lkey] for e in u['expect']]
             plan.append(('iter_location_lists', len(reqs), None))
             reqs.append(['m_iter_loc', secs, gen_, f['cuviews']])
             plan.append(('enum', len(reqs), None))
-            reqs.append(['enum_expected', sorted(refs), flat])
+            reqs.append(_enum_expected_req(f, gen_, False))
         if f[rkey] is not None:
-            refs = set()
-            for ci in same:
-                for d in f['cus'][ci]['meta']:
-                    for name, form, raw, tgt in d:
-                        if tgt is not None and name == 'DW_AT_ranges':
-                            refs.add(_expect_of(f, tgt[1:])[0])
-            flat = f[rkey] if gen_ == 4 else [e for u in f[rkey] for e in u['expect']]
             plan.append(('iter_range_lists', len(reqs), None))
             reqs.append(['m_iter_rng', secs, gen_, f['cuviews']])
             plan.append(('enum', len(reqs), None))
-            reqs.append(['enum_expected', sorted(refs), flat])
+            reqs.append(_enum_expected_req(f, gen_, True))
     # unit blocks
     if f['loc5'] is not None:
         plan.append(('LocationLists.iter_CUs', len(reqs), _ok([c_sorted_container(h) for h in f['loc5_headers']])))
@@ -985,6 +1063,213 @@ def _iter_view(f):
     if _is_err(r):
         return r
     return _ok([[c_tup(t) for t in l] for l in r])
+
+
+# ---- sessions
+_RAW_LABELS = ('get_range_list_at_offset_ex', 'iter_CU_range_lists_ex')
+_HDR_LABELS = ('LocationLists.iter_CUs', 'RangeLists.iter_CUs')
+
+
+def _eval_sessions(ctx, cases):
+    drv = ctx.driver
+    files_a = [a[0] for a in cases]
+    reqs, slots = _file_plan(drv, files_a)
+    built = drv.batch(reqs)
+    reqs2 = []
+    work = []
+    for (a, script), s in zip(cases, slots):
+        f = _assemble(a, s, built)
+        mops = [_model_op(f, op) for op in script]
+        w = {'f': f, 'script': script, 'model': len(reqs2)}
+        reqs2.append(['m_session', f['secs'], f['cuviews'], mops])
+        reqs2.append(['wf_session', f['secs'], f['cuviews'], mops])
+        w['emit'] = [_spec_op(f, op, reqs2) for op in script]
+        work.append(w)
+    ans = drv.batch(reqs2)
+    for (a, script), w in zip(cases, work):
+        f = w['f']
+        mev, merr = ans[w['model']]
+        model = [_model_event(e) for e in mev] + ([merr] if merr != 'none' else [])
+        ok_script = bool(ans[w['model'] + 1])
+        spec = [e for emit in w['emit'] for e in emit(ans)]
+        impl = _impl_session(f, script)
+        key = 'session/ok'
+        for i in range(max(len(impl), len(spec))):
+            iv = impl[i] if i < len(impl) else None
+            sv = spec[i] if i < len(spec) else None
+            if iv != sv:
+                key = 'session/' + str((iv or sv)[0])
+                break
+        kinds = [op[0] for op in script]
+        ctx.bump('session-start', 'warm' if kinds[0] == 'act' and script[0][1][0] == 'parse' else 'fresh')
+        for op in script:
+            if op[0] != 'act':
+                ctx.bump('session-enum', op[0] + ('-hooks' if any(op[-1]) else ''))
+        ctx.bump('session-domain', 'in' if ok_script else 'model-only')
+        nlists = sum(len(x) for x in f['nontrivial'])
+        ctx.record('session', [a, script], impl=impl, spec=spec if ok_script else model, model=model,
+                   in_domain=f['wf'] and ok_script, nontrivial=nlists > 0, key=key)
+
+
+def _model_simple(f, h):
+    if h[0] == 'get_ex':
+        return ['get_ex', f['rng5'][h[1]]['expect'][h[2]][1]]
+    return h
+
+
+def _model_op(f, op):
+    if op[0] == 'act':
+        return ['act', _model_simple(f, op[1])]
+    return op[:-1] + [[[_model_simple(f, h) for h in hook] for hook in op[-1]]]
+
+
+def _model_event(e):
+    lab, v = e
+    if lab in _RAW_LABELS:
+        return [lab, [c_sorted_container(c) for c in v]]
+    if lab in _HDR_LABELS:
+        return [lab, c_sorted_container(v)]
+    return [lab, v]
+
+
+def _spec_simple(f, h, reqs):
+    """what a simple call must return, as a function of the driver's answers"""
+    if h[0] == 'parse':
+        return lambda ans: []
+    if h[0] == 'get_ex':
+        u = f['rng5'][h[1]]
+        slot = len(reqs)
+        reqs.append(['raw_rle', f['le'], f['asz'], u['expect'][h[2]][1], _list_items(u['u'][5])[h[2]][2]])
+        return lambda ans: [['get_range_list_at_offset_ex', [c_sorted_container(c) for c in ans[slot]]]]
+    k, d, name = h[1:]
+    tgt = [t for n, fm, raw, t in f['cus'][k]['meta'][d] if n == name][0]
+    e = _expect_of(f, tgt[1:])
+    val = e[2] if name == 'DW_AT_ranges' else e[2][_nviews(f, tgt[1:]):]
+    return lambda ans: [['fetch', val]]
+
+
+def _spec_op(f, op, reqs):
+    if op[0] == 'act':
+        return _spec_simple(f, op[1], reqs)
+    hooks = [[_spec_simple(f, h, reqs) for h in hook] for hook in op[-1]]
+    if op[0] in ('iter_loc', 'iter_rng'):
+        label = 'iter_location_lists' if op[0] == 'iter_loc' else 'iter_range_lists'
+        slot = len(reqs)
+        reqs.append(_enum_expected_req(f, op[1], op[0] == 'iter_rng'))
+        yields = lambda ans: ans[slot]
+    elif op[0] in ('cus_loc', 'cus_rng'):
+        label = 'LocationLists.iter_CUs' if op[0] == 'cus_loc' else 'RangeLists.iter_CUs'
+        hs = [c_sorted_container(h) for h in f['loc5_headers' if op[0] == 'cus_loc' else 'rng5_headers']]
+        yields = lambda ans: hs
+    else:
+        label = 'iter_CU_range_lists_ex'
+        u = f['rng5'][op[1]]
+        sl = []
+        for it, e in zip(u['u'][5], u['expect']):
+            sl.append(len(reqs))
+            reqs.append(['raw_rle', f['le'], f['asz'], e[1], it[2]])
+        yields = lambda ans: [[c_sorted_container(c) for c in ans[i]] for i in sl]
+
+    def emit(ans):
+        out = []
+        for i, y in enumerate(yields(ans)):
+            out.append([label, y])
+            if i < len(hooks):
+                for h in hooks[i]:
+                    out += h(ans)
+        return out
+    return emit
+
+
+def _impl_session(f, script):
+    """the script on the real library, one fresh DWARFInfo; events of the calls that completed, then the
+    exception that ended the session (if any)"""
+    from elftools.dwarf.locationlists import LocationLists, LocationParser
+    from elftools.dwarf.ranges import RangeLists
+    le, asz = f['le'], f['asz']
+    info, abbrev, cu_offs = B.build_info(le, [{'version': c['version'], 'is64': c['is64'], 'asz': c['asz'], 'dies': c['dies']}
+                                              for c in f['cus']])
+    di = B.make_dwarfinfo(le, asz, dict(info=info, abbrev=abbrev, loc=f['bytes']['loc'], ranges=f['bytes']['ranges'],
+                                        loclists=f['bytes']['loclists'], rnglists=f['bytes']['rnglists'], addr=f['bytes']['addr']))
+    st = {}
+
+    def setup():
+        st['cus'] = list(di.iter_CUs())          # unit headers only: no DIE is parsed here
+        st['ll'] = di.location_lists()
+        st['rl'] = di.range_lists()
+        st['parser'] = LocationParser(st['ll'])
+        return True
+    r = impl_call(setup)
+    if _is_err(r):
+        return [r]
+
+    def loc_obj(gen_):
+        # the object of one generation over the DWARFInfo's own stream (what LocationListsPair holds)
+        if isinstance(st['ll'], LocationLists):
+            return st['ll']
+        sec = di.debug_loclists_sec if gen_ == 5 else di.debug_loc_sec
+        return LocationLists(sec.stream, di.structs, gen_, di)
+
+    def rng_obj(gen_):
+        if isinstance(st['rl'], RangeLists):
+            return st['rl']
+        sec = di.debug_rnglists_sec if gen_ == 5 else di.debug_ranges_sec
+        return RangeLists(sec.stream, di.structs, gen_, di)
+
+    def simple(h, out):
+        if h[0] == 'parse':
+            it = st['cus'][h[1]].iter_DIEs()
+            for _ in range(h[2]):
+                next(it, None)
+        elif h[0] == 'get_ex':
+            off = f['rng5'][h[1]]['expect'][h[2]][1]
+            out.append(['get_range_list_at_offset_ex', [c_container(c) for c in st['rl'].get_range_list_at_offset_ex(off)]])
+        else:
+            k, d, name = h[1:]
+            cu = st['cus'][k]
+            it = cu.iter_DIEs()
+            die = None
+            for _ in range(d + 1):
+                die = next(it)
+            attr = die.attributes[name]
+            if name == 'DW_AT_ranges':
+                r = st['rl'].get_range_list_at_offset(attr.value, cu)
+            else:
+                r = st['parser'].parse_from_attribute(attr, cu['version'], die)
+            out.append(['fetch', [c_tup(t) for t in r]])
+
+    def run(op):
+        out = []
+        if op[0] == 'act':
+            simple(op[1], out)
+            return out
+        sched = op[-1]
+        if op[0] == 'iter_loc':
+            label, g, view = 'iter_location_lists', loc_obj(op[1]).iter_location_lists(), lambda l: [c_tup(t) for t in l]
+        elif op[0] == 'iter_rng':
+            label, g, view = 'iter_range_lists', rng_obj(op[1]).iter_range_lists(), lambda l: [c_tup(t) for t in l]
+        elif op[0] == 'cus_loc':
+            label, g, view = 'LocationLists.iter_CUs', loc_obj(5).iter_CUs(), c_container
+        elif op[0] == 'cus_rng':
+            label, g, view = 'RangeLists.iter_CUs', st['rl'].iter_CUs(), c_container
+        else:
+            blocks = list(st['rl'].iter_CUs())
+            label, g, view = 'iter_CU_range_lists_ex', st['rl'].iter_CU_range_lists_ex(blocks[op[1]]), \
+                lambda l: [c_container(c) for c in l]
+        for i, y in enumerate(g):
+            out.append([label, view(y)])
+            if i < len(sched):
+                for h in sched[i]:
+                    simple(h, out)
+        return out
+    events = []
+    for op in script:
+        r = impl_call(run, op)
+        if _is_err(r):
+            events.append(r)
+            break
+        events += r
+    return events
 
 
 # ---- classification sweep
